@@ -475,6 +475,35 @@ vbi_bit_slicer_init(vbi_bit_slicer *slicer,
 			 + sampling_rate * 256.0 / bit_rate * .25 + 128);
 		break;
 	}
+
+	{
+		long long lookahead;
+		int data_bits;
+
+		/* The slicer functions do not check for the end of the
+		   line while they read FRC and payload. Limit the CRI
+		   search such that the last sampling point and the sample
+		   after it (linear interpolation) still lie within
+		   raw_samples. */
+		data_bits = payload + frc_bits;
+		lookahead = 1;
+
+		if (data_bits > 0) {
+			lookahead += (slicer->phase_shift
+				      + (long long)(data_bits - 1)
+				      * slicer->step) >> 8;
+		}
+
+		if (slicer->cri_bytes > raw_samples - lookahead)
+			slicer->cri_bytes = raw_samples - lookahead;
+
+		/* No room, never search. The slicer functions copy
+		   cri_bytes to an unsigned counter. */
+		if (slicer->cri_bytes < 0
+		    || slicer->phase_shift < 0
+		    || slicer->step < 0)
+			slicer->cri_bytes = 0;
+	}
 }
 
 /**
